@@ -180,6 +180,13 @@ impl<'g> Sampler<'g> {
                 }
             }
             Expr::PosPred(_) | Expr::NegPred(_) => {}
+            Expr::Seq(a, b) if matches!(&**a, Expr::NegPred(_)) && rng.chance(1, 4) => {
+                // text on which the exclusion bites: what the predicate forbids stands there (a delimiter after
+                // scanned text, a keyword where an identifier is expected)
+                if let Expr::NegPred(x) = &**a {
+                    self.expr(x, rng, d, out);
+                }
+            }
             Expr::Seq(a, b) => {
                 self.expr(a, rng, d, out);
                 self.ws(rng, d, out);
